@@ -21,6 +21,9 @@
 package compile
 
 import (
+	"fmt"
+	"math"
+
 	"go.uber.org/thriftrw/ast"
 	"go.uber.org/thriftrw/wire"
 )
@@ -60,6 +63,15 @@ func compileEnum(file string, src *ast.Enum) (*EnumSpec, error) {
 		if astItem.Value != nil {
 			value = *astItem.Value
 		}
+		if value < math.MinInt32 || value > math.MaxInt32 {
+			return nil, compileError{
+				Target: src.Name + "." + astItem.Name,
+				Line:   astItem.Line,
+				Reason: fmt.Errorf(
+					"enum value %v is out of bounds: "+
+						"enum values must fit in a 32-bit signed integer", value),
+			}
+		}
 		prev = value
 
 		itemAnnotations, err := compileAnnotations(astItem.Annotations)
@@ -70,7 +82,6 @@ func compileEnum(file string, src *ast.Enum) (*EnumSpec, error) {
 				Reason: err,
 			}
 		}
-		// TODO bounds check for value
 		item := EnumItem{
 			Name:        astItem.Name,
 			Value:       int32(value),
